@@ -167,7 +167,7 @@ def build_header(spec: dict):
         pi.numstreams = len(pi.packsizes)
         if spec["packcrc"] is not None:
             pi.digestdefined = [c is not None for c in spec["packcrc"]]
-            pi.crcs = [c if c is not None else 0 for c in spec["packcrc"]]
+            pi.crcs = [c for c in spec["packcrc"] if c is not None]  # one value per defined stream, as the reader stores them
             pi.enable_digests = True
         else:
             pi.enable_digests = False
